@@ -15,9 +15,12 @@ from vlib import core, modbuild, thrmod, build
 
 RULE = ("case = one scenario: 2-5 waves of 1-12 foreign threads x 0-50 callback calls, random "
         "usleep between calls and before thread exit, callback kind ffi.callback or extern "
-        "\"Python\", 0-2 Python threads doing gc.collect()/callback creation/C calls meanwhile; "
-        "distinct = "
-        "(wave sizes, calls per thread, exit delays, callback kind); non-trivial = >= 2 foreign "
+        "\"Python\", 0-2 Python threads doing gc.collect()/callback creation/C calls meanwhile, "
+        "optionally nested cffi callbacks made from inside the callback (through a C call = GIL "
+        "released, or through a ctypes PYFUNCTYPE pointer = GIL held), optionally os.fork() "
+        "while exited foreign threads are still pending in the zombie list followed by new "
+        "foreign threads in the child and in the parent; distinct = "
+        "(wave sizes, calls per thread, callback kind, nesting mode, fork); non-trivial = >= 2 foreign "
         "threads with >= 2 calls each")
 ASSUMPTIONS = ["TSan reports are observations only (the unlocked fast-path read of cffi_zombie_head.zombie_next is a known C11 race that does not affect the property)",
                "the thread-state checks are behavioural: threading.get_ident() stable per foreign thread, threading.local data persisting across calls of one thread and fresh for a new thread"]
@@ -119,6 +122,19 @@ def child_setup(setup, wd):
     return {'ffi': _thrmod.ffi, 'lib': _thrmod.lib}
 
 
+def _san_log_of(pid):
+    txt = ''
+    for var in ('ASAN_OPTIONS', 'UBSAN_OPTIONS', 'TSAN_OPTIONS'):
+        for part in os.environ.get(var, '').split(':'):
+            if part.startswith('log_path='):
+                try:
+                    with open(part[len('log_path='):] + '.%d' % pid, errors='replace') as f:
+                        txt += f.read(20000)
+                except OSError:
+                    pass
+    return txt
+
+
 def scenario(st, seed, rep):
     import gc
     ffi, lib = st['ffi'], st['lib']
@@ -126,10 +142,27 @@ def scenario(st, seed, rep):
     nwaves = rnd.choice([2, 3, 4, 5])
     use_ep = rnd.random() < 0.4
     npy = rnd.choice([0, 1, 2])
+    # nested callbacks made from inside the callback of a foreign thread:
+    # 'c' = through a cffi C call (GIL released and re-acquired), 'held' = through
+    # a ctypes PYFUNCTYPE pointer (GIL held, thread state already current)
+    nest = rnd.choice(['', '', 'c', 'held', 'both'])
+    do_fork = rnd.random() < 0.3 and not os.environ.get('VERIF_C36_NOFORK')
     log = []
     lock = threading.Lock()
     tls = threading.local()
-    seen_idents = {}
+    inner_seen = []
+
+    def inner_fn(x):
+        inner_seen.append(x)
+        tls.last_inner = (threading.get_ident(), getattr(tls, 'n', None), x)
+        return x + 7
+    inner = ffi.callback('int(int)', inner_fn)
+    inner_held = None
+    if nest in ('held', 'both'):
+        import ctypes
+        inner_held = ctypes.PYFUNCTYPE(ctypes.c_int, ctypes.c_int)(
+            int(ffi.cast('intptr_t', inner)))
+    nest_bad = []
 
     def record(wave, tid, idx):
         ident = threading.get_ident()
@@ -142,6 +175,22 @@ def scenario(st, seed, rep):
         else:
             tls.n = n + 1
             n = n + 1
+        if nest and (idx + tid) % 3 != 1:
+            if nest in ('c', 'both'):
+                tls.last_inner = None
+                lib.call_cb_then_errno(inner, idx)
+                if tls.last_inner != (ident, n, idx):
+                    nest_bad.append('nested callback (through C) ran with another thread '
+                                    'state: it left %r, outer expects %r' %
+                                    (tls.last_inner, (ident, n, idx)))
+            if inner_held is not None:
+                tls.last_inner = None
+                if inner_held(idx + 1) != idx + 8:
+                    nest_bad.append('GIL-held nested callback returned a wrong value')
+                if tls.last_inner != (ident, n, idx + 1):
+                    nest_bad.append('nested callback (GIL held) ran with another thread '
+                                    'state: it left %r, outer expects %r' %
+                                    (tls.last_inner, (ident, n, idx + 1)))
         with lock:
             log.append((wave, tid, idx, ident, n, owner))
         return 0
@@ -169,21 +218,62 @@ def scenario(st, seed, rep):
         p.start()
     plan = []
     rc_total = 0
-    for w in range(nwaves):
+
+    def wave(w):
         n = rnd.choice([1, 2, 3, 6, 12])
         calls = [rnd.choice([0, 1, 2, 5, 20, 50]) for _ in range(n)]
         sleeps = [rnd.choice([0, 0, 20, 200]) for _ in range(n)]
         delays = [rnd.choice([0, 0, 100, 1000]) for _ in range(n)]
         plan.append((n, calls))
-        rc = lib.run_wave(w, n, ffi.new('int[]', calls), ffi.new('int[]', sleeps),
-                          ffi.new('int[]', delays), cb, 1 if use_ep else 0)
-        rc_total += rc
+        return lib.run_wave(w, n, ffi.new('int[]', calls), ffi.new('int[]', sleeps),
+                            ffi.new('int[]', delays), cb, 1 if use_ep else 0)
+    for w in range(nwaves):
+        rc_total += wave(w)
         if rnd.random() < 0.5:
             gc.collect()
     stop[0] = True
     for p in pys:
         p.join(60)
-    return plan, log, use_ep, npy, rc_total
+    fork_info = None
+    if do_fork and not any(p.is_alive() for p in pys):
+        # exited foreign threads are now pending in cffi's zombie list; fork() makes
+        # CPython clear every other thread state in the child, then *new* foreign
+        # threads call back in the child (and afterwards in the parent)
+        nchild = rnd.choice([1, 2, 3])
+        sys.stdout.flush()
+        sys.stderr.flush()
+        rfd, wfd = os.pipe()
+        pid = os.fork()
+        if pid == 0:
+            try:
+                os.close(rfd)
+                del log[:]
+                base = len(plan)
+                crc = 0
+                for w in range(base, base + nchild):
+                    crc += wave(w)
+                bad = check(plan[base:], [(w_ - base, t_, i_, id_, n_, o_ and (o_[0] - base, o_[1]))
+                                          for (w_, t_, i_, id_, n_, o_) in log])
+                os.write(wfd, json.dumps({'rc': crc, 'bad': bad[:4], 'events': len(log),
+                                          'nest_bad': nest_bad[:2]}).encode())
+            finally:
+                os._exit(0)
+        os.close(wfd)
+        data = b''
+        deadline = time.time() + 300
+        while True:
+            chunk = os.read(rfd, 65536)
+            if not chunk:
+                break
+            data += chunk
+        os.close(rfd)
+        _, status = os.waitpid(pid, 0)
+        fork_info = {'status': status, 'data': data.decode(errors='replace'),
+                     'san': _san_log_of(pid), 'zombies_pending': plan[-1][0], 'waves': nchild}
+        # the parent goes on too
+        w = len(plan)
+        rc_total += wave(w)
+    return plan, log, use_ep, npy, rc_total, nest, nest_bad, fork_info, len(inner_seen)
 
 
 def check(plan, log):
@@ -226,21 +316,56 @@ def check(plan, log):
 def child_case(st, case):
     rep = core.ChildRep()
     for seed in case['seeds']:
-        plan, log, use_ep, npy, rc = scenario(st, seed, rep)
-        key = (tuple((n, tuple(c)) for n, c in plan), use_ep, npy)
+        plan, log, use_ep, npy, rc, nest, nest_bad, fork_info, ninner = scenario(st, seed, rep)
+        key = (tuple((n, tuple(c)) for n, c in plan), use_ep, npy, nest, bool(fork_info))
         nthreads = sum(n for n, c in plan)
         nontriv = sum(1 for n, c in plan for x in c if x >= 2) >= 2
         rep.case(key, nontrivial=nontriv,
                  sample={'waves': [[n, c] for n, c in plan], 'extern_python': use_ep,
-                         'python_threads': npy, 'events': len(log)})
+                         'python_threads': npy, 'events': len(log), 'nested': nest,
+                         'forked': bool(fork_info)})
         rep.stat('scenarios')
         rep.stat('foreign_threads', nthreads)
         rep.stat('callback_events', len(log))
         rep.stat('scenarios_extern_python' if use_ep else 'scenarios_ffi_callback')
+        rep.stat('nested_callback_events', ninner)
+        if nest:
+            rep.stat('scenarios_nested_' + nest)
         if rc >= 1000:
             rep.bad('harness-pthread-create', 'pthread_create failed', seed)
         for mech, msg in check(plan, log)[:6]:
-            rep.bad(mech, msg + ' | seed %d' % seed, seed)
+            rep.bad(mech, msg + ' | nested=%r | seed %d' % (nest, seed), seed)
+        for msg in nest_bad[:2]:
+            rep.bad('nested-callback-thread-state', msg + ' | nested=%r | seed %d' % (nest, seed),
+                    seed)
+        if fork_info:
+            rep.stat('scenarios_with_fork')
+            st_ = fork_info['status']
+            where = ('child forked with %d exited foreign threads pending, then %d new waves'
+                     % (fork_info['zombies_pending'], fork_info['waves']))
+            if os.WIFSIGNALED(st_):
+                rep.bad('crash-in-forked-child', '%s: killed by signal %d | %s | seed %d' % (
+                    where, os.WTERMSIG(st_), fork_info['san'][:600].replace('\n', ' / '), seed),
+                    seed)
+            else:
+                try:
+                    d = json.loads(fork_info['data'])
+                except ValueError:
+                    d = None
+                if d is None:
+                    rep.bad('crash-in-forked-child', '%s: exit status %d without a report | %s | '
+                            'seed %d' % (where, os.WEXITSTATUS(st_),
+                                         fork_info['san'][:600].replace('\n', ' / '), seed), seed)
+                else:
+                    rep.stat('callback_events_in_forked_children', d['events'])
+                    for mech, msg in d['bad']:
+                        rep.bad(mech + ':in-forked-child', msg + ' | seed %d' % seed, seed)
+                    for msg in d['nest_bad']:
+                        rep.bad('nested-callback-thread-state:in-forked-child', msg, seed)
+                    if 'ERROR: AddressSanitizer' in fork_info['san']:
+                        rep.bad('sanitizer-report-in-forked-child', where + ': ' +
+                                fork_info['san'][:800].replace('\n', ' / ') + ' | seed %d' % seed,
+                                seed)
     return rep.result()
 
 
